@@ -28,7 +28,7 @@ Inductive case :=
 | CNeg (lines : list bytes) (offers : list bytes) (default : bytes) (panicked : bool) (r : bytes)
 | CEnc (lines : list bytes) (offers : list bytes) (panicked : bool) (r : bytes)
 | CHandler (lines : list bytes) (route_offers : list bytes) (panicked : bool) (status : nat) (ran : bool)
-| CHandlerSeq (route_offers : list bytes) (panicked : bool)
+| CHandlerSeq (declared route_offers : list bytes) (panicked : bool)
               (steps : list (list bytes * nat * bool * bytes)).   (* successive requests on ONE handler instance *)
 
 Definition spec_matches (sp : spec) (o : bytes * gofloat) : bool :=
@@ -66,6 +66,18 @@ Definition range_matches (g : bytes * option bytes) (o : bytes * gofloat) : bool
 Definition JSON_MIME : bytes := [97;112;112;108;105;99;97;116;105;111;110;47;106;115;111;110].
 Definition respond_offers (offers : list bytes) : list bytes :=
   filter (fun o => negb (bytes_eqb o JSON_MIME)) offers ++ [JSON_MIME].
+
+(* the route's produces (router.go AddRoute, inDeclaredOrder): the operation's declared produces in their declared order,
+   each once (first occurrence), then the API default unless it is there already up to letter case. The same definition
+   as C08's route_produces_of, repeated here so that C07's files stay self-contained. *)
+Fixpoint dedup_first (l : list bytes) : list bytes :=
+  match l with
+  | [] => []
+  | x :: r => x :: filter (fun y => negb (bytes_eqb y x)) (dedup_first r)
+  end.
+Definition route_of (declared : list bytes) : list bytes :=
+  let ps := dedup_first declared in
+  if existsb (fun y => bytes_eqb (lower y) (lower JSON_MIME)) ps then ps else ps ++ [JSON_MIME].
 
 (* one request through the API handler: (correspondence, property) *)
 Definition handler_step (offers : list bytes) (lines : list bytes) (status : nat) (ran : bool) (ct : option bytes) : bool * bool :=
@@ -138,10 +150,12 @@ Definition check_case (c : case) : N :=
               (negb panicked && Bool.eqb ran (negb expect406) && Bool.eqb (Nat.eqb status 406) expect406)
     | None => verdict false (negb panicked)
     end
-  | CHandlerSeq offers panicked steps =>
-    (* the handler is stateless across requests: every request of the history is answered as if it came alone *)
+  | CHandlerSeq declared offers panicked steps =>
+    (* the handler is stateless across requests: every request of the history is answered as if it came alone;
+       the offers of the route are the declared produces in declared order, the default last *)
     let rs := map (fun st => match st with (lines, status, ran, ct) => handler_step offers lines status ran (Some ct) end) steps in
-    verdict (negb panicked && forallb fst rs) (negb panicked && forallb snd rs)
+    let order_ok := list_eqb bytes_eqb offers (route_of declared) in
+    verdict (negb panicked && order_ok && forallb fst rs) (negb panicked && order_ok && forallb snd rs)
   | CEnc lines offers panicked r =>
     match parse_accept lines with
     | Some specs => verdict (negb panicked && bytes_eqb r (negotiate_content_encoding specs offers)) (negb panicked)
